@@ -114,9 +114,15 @@ func sumOf(X3, Y3, X1, Y1, X2, Y2, d verif.Int) bool {
 //   (0,0) = B;  (i, j+1) = (i, j) + (i, 0);  (i+1, 0) = [2^8](i, 0) by eight doublings whose intermediate
 //   affine points are proposed by the real code and each verified by the affine doubling law.
 //
-//verif:ob prop=C20,C06 name=basepoint_table_rows mode=int tags=purego,force32bit split=i:0..1+30..31 tsplit=i:0..31
-func vh_C20_tableRow() {
-	i := verif.Case("i")
+//verif:ob prop=C20,C06 name=basepoint_table_rows mode=int tags=purego split=i:0..31
+func vh_C20_tableRow() { tableRow(verif.Case("i")) }
+
+// the same packed bytes unpacked by the 32-bit back end: sampled rows in the quick tier, all rows in the thorough one
+//
+//verif:ob prop=C20,C06 name=basepoint_table_rows_u32 mode=int tags=force32bit split=i:0..1+30..31 tsplit=i:0..31
+func vh_C20_tableRow32() { tableRow(verif.Case("i")) }
+
+func tableRow(i int) {
 	d := pinFe(&constEDWARDS_D)
 	tbl := ED25519_BASEPOINT_TABLE.inner
 	row := &tbl[i]
